@@ -36,14 +36,18 @@ fn parse(line: &str) -> Cfg {
 struct Handler { id: usize, sched: Arc<Sched> }
 impl EventHandler<u64> for Handler {
     fn handle_event(&self, event: &u64, sequence: Sequence, eob: bool) {
+        self.sched.yield_point(K_CALL);
         self.sched.mark(K_CALL, self.id, sequence, *event, eob as u64);
+        self.sched.yield_point(K_RET);
         self.sched.mark(K_RET, self.id, sequence, *event, 0);
     }
 }
 struct HandlerMut { id: usize, sched: Arc<Sched> }
 impl EventHandlerMut<u64> for HandlerMut {
     fn handle_event(&mut self, event: &mut u64, sequence: Sequence, eob: bool) {
+        self.sched.yield_point(K_CALL);
         self.sched.mark(K_CALL, self.id, sequence, *event, eob as u64);
+        self.sched.yield_point(K_RET);
         *event = event.wrapping_mul(1000003).wrapping_add(self.id as u64 + 1);
         self.sched.mark(K_RET, self.id, sequence, *event, 0);
     }
